@@ -8,6 +8,7 @@ import (
 	"os"
 	"os/exec"
 	"path/filepath"
+	"regexp"
 	"sort"
 	"strings"
 
@@ -255,6 +256,8 @@ func Generate(pl *Plugins, s *Schema, v Variant) *Generated {
 	return g
 }
 
+var logStamp = regexp.MustCompile(`\d{4}/\d\d/\d\d \d\d:\d\d:\d\d(\.\d+)? `)
+
 // Key is a content hash of everything generated (used to key the build cache directory).
 func Key(gs []*Generated, extra ...string) string {
 	h := sha256.New()
@@ -264,7 +267,8 @@ func Key(gs []*Generated, extra ...string) string {
 			names = append(names, n)
 		}
 		sort.Strings(names)
-		fmt.Fprintf(h, "%s|%s|%s\n", g.Schema.ID, g.Variant.Name(), g.GenError)
+		// (a plug-in's error text may carry the log package's time stamp: not content)
+		fmt.Fprintf(h, "%s|%s|%s\n", g.Schema.ID, g.Variant.Name(), logStamp.ReplaceAllString(g.GenError, ""))
 		for _, n := range names {
 			fmt.Fprintf(h, "%s\x00%s\x00", n, g.Files[n])
 		}
